@@ -121,6 +121,18 @@ Definition check_exact (R : list nat) (gs gs' : list egate) (z : Zw) : bool :=
   nodupb R && forallb (wfb R) gs && forallb (wfb R) gs' && Nat.eqb (sumS gs) (sumS gs') &&
   forallb (fun x => forallb (fun y => lp_eqb (P x y) (lp_mul (lp_const z) (P' x y))) all) all.
 
+
+(* comparison of two gate lists up to a global phase *)
+Definition check_equiv2 (R : list nat) (gs gs' : list egate) : bool :=
+  let n := length R in
+  let P := prodL R gs in
+  let T := prodL R gs' in
+  let z := repeat false n in
+  nodupb R && forallb (wfb R) gs && forallb (wfb R) gs' &&
+  mpropb n P T &&
+  lp_eqb (rownorm n P z) (pow2 (sumS gs)) &&
+  lp_eqb (rownorm n T z) (pow2 (sumS gs')).
+
 (* ---------------------------------------------------------------- semantics *)
 Definition rhC : C := RtoC rh.           (* 1 / sqrt 2 *)
 
@@ -316,5 +328,65 @@ Proof.
     apply (lp_eqb_sound rho) in Hall. unfold prodL in Hall. rewrite Hall.
     rewrite lp_eval_mul, lp_eval_const by auto. reflexivity. }
   rewrite (apply_ext _ _ _ psi b HP). rewrite apply_scale. ring.
+Qed.
+
+Theorem local_sound2 R gs gs' : check_equiv2 R gs gs' = true ->
+  csem (map sgate gs) ≃ csem (map sgate gs').
+Proof.
+  unfold check_equiv2; intros H.
+  repeat (apply andb_true_iff in H as [H ?]).
+  match goal with H1 : nodupb R = true |- _ => pose proof (nodupb_NoDup R H1) as HR end.
+  match goal with H1 : forallb (wfb R) gs = true |- _ => pose proof (forallb_wf R gs H1) as Hwf end.
+  match goal with H1 : forallb (wfb R) gs' = true |- _ => pose proof (forallb_wf R gs' H1) as Hwf' end.
+  match goal with H1 : mpropb _ _ _ = true |- _ => pose proof (mpropb_sound _ _ _ H1) as Hm end.
+  set (n := length R) in *.
+  set (PL := prodL R gs) in *.
+  set (TL := prodL R gs') in *.
+  set (z := repeat false n) in *.
+  assert (Hz : lenn n z) by (apply repeat_length).
+  match goal with H1 : lp_eqb (rownorm n PL z) _ = true |- _ =>
+    apply (lp_eqb_sound rho) in H1; rewrite rownorm_eval, pow2_eval in H1; rename H1 into HnP end.
+  match goal with H1 : lp_eqb (rownorm n TL z) _ = true |- _ =>
+    apply (lp_eqb_sound rho) in H1; rewrite rownorm_eval, pow2_eval in H1; rename H1 into HnT end.
+  destruct (phase_from_mprop (fun x y => phi (PL x y)) (fun x y => phi (TL x y)) n z
+              (2 ^ sumS gs)%R (2 ^ sumS gs')%R Hz Hm HnP HnT) as [c0 [Hc0 Hall]].
+  { apply pow_nonzero; lra. }
+  exists (RtoC (rh ^ sumS gs * sqrt 2 ^ sumS gs')%R * c0). split.
+  { unfold Cunit. rewrite Cnorm2_mul.
+    assert (E : Cnorm2 (RtoC (rh ^ sumS gs * sqrt 2 ^ sumS gs')) =
+                (rh ^ sumS gs * rh ^ sumS gs * (sqrt 2 ^ sumS gs' * sqrt 2 ^ sumS gs'))%R).
+    { unfold Cnorm2, RtoC; simpl; ring. }
+    rewrite E. rewrite <- (Rpow_mult_distr (sqrt 2) (sqrt 2)), sqrt_sqrt by lra.
+    pose proof (rh_pow2 (sumS gs)) as E2.
+    assert (E3 : (2 ^ sumS gs' <> 0)%R) by (apply pow_nonzero; lra).
+    assert (E4 : (2 ^ sumS gs <> 0)%R) by (apply pow_nonzero; lra).
+    assert (E5 : Cnorm2 c0 = (2 ^ sumS gs / 2 ^ sumS gs')%R) by (rewrite <- Hc0; field; auto).
+    rewrite E5. field_simplify_eq; auto. nra. }
+  intros psi b.
+  rewrite !csem_sgates.
+  rewrite (csem_prod (map pi R) (map ugate gs)) by (auto using NoDup_map_pi).
+  rewrite (csem_prod (map pi R) (map ugate gs')) by (auto using NoDup_map_pi).
+  assert (Hinit : forall x' y', lenn (length R) x' -> lenn (length R) y' ->
+            phi (memo lp0 (length R) (lembed R [] loneF) x' y') = cembed (map pi R) [] oneF x' y').
+  { intros x' y' Hx' Hy'. rewrite phi_memo by auto.
+    rewrite (embedK_hom LP C lp0 C0 phi (lp_eval_0 rho)).
+    pose proof (embedK_pi pi pi_inj C0 R [] oneF x' y') as E; simpl in E; rewrite E.
+    unfold embedK. destruct (restb R [] x' y'); auto. unfold loneF, oneF. apply lp_eval_1. }
+  assert (HP : forall x y, lenn (length (map pi R)) x -> lenn (length (map pi R)) y ->
+     prodK (map pi R) (map ugate gs) (cembed (map pi R) [] oneF) x y
+     = c0 * prodK (map pi R) (map ugate gs') (cembed (map pi R) [] oneF) x y).
+  { intros x y Hx Hy. rewrite map_length in Hx, Hy. fold n in Hx, Hy.
+    rewrite <- (prod_hom R gs _ _ Hinit x y Hx Hy), <- (prod_hom R gs' _ _ Hinit x y Hx Hy).
+    apply (Hall x y Hx Hy). }
+  rewrite (apply_ext _ _ _ psi b HP).
+  rewrite apply_scale. rewrite !cpow_rhC.
+  assert (Es : RtoC (rh ^ sumS gs) =
+     RtoC (rh ^ sumS gs * sqrt 2 ^ sumS gs') * RtoC (rh ^ sumS gs')).
+  { rewrite RtoC_mul. f_equal.
+    assert (E : (sqrt 2 ^ sumS gs' * rh ^ sumS gs' = 1)%R).
+    { rewrite <- Rpow_mult_distr. replace (sqrt 2 * rh)%R with 1%R; [apply pow1|].
+      unfold rh. pose proof (sqrt_sqrt 2 ltac:(lra)). nra. }
+    rewrite Rmult_assoc, E; ring. }
+  rewrite Es. ring.
 Qed.
 End Sem.
